@@ -32,7 +32,7 @@ void run_qrbits(unsigned seed, int lc10) {
     Tensor<T,n,n> Q, R, PM; Tensor<size_t,n> PV;
     for (size_t i = 0; i < n * n; ++i) { Q.data()[i] = T(77); R.data()[i] = T(77); PM.data()[i] = T(77); }
     for (size_t i = 0; i < n; ++i) PV.data()[i] = 77;
-    const bool piv = S >= S_PIVV, pmat = S >= S_PIVM;
+    const bool piv = is_piv(S), pmat = is_pmat(S);
     call_qr<T, n, S>::go(A, Q, R, PV, PM);
     std::string ps; bool pok = true;
     for (size_t i = 0; i < n; ++i) {
